@@ -237,6 +237,16 @@ EH = "vf.contracts.c_errors."
 def cases(E):
     cs = [Case(EH + "statement_error_token_contract", f"any prefix, then `{n}`", shape_statement_after_prefix(n),
                target=["a816.parse.parser_states.parse_decl", "a816.parse.codegen._code_gen", "a816.parse.codegen.generate_opcode", "a816.parse.codegen.generate_db"]) for n in STATEMENTS]
+    def in_macro(n):
+        base = shape_statement_after_prefix(n)
+
+        def sh(B):
+            d = base(B)
+            d["app_line"] = B.int("application_line", 0)
+            return d
+        return sh
+    cs += [Case(EH + "macro_body_error_contract", f"`{n}` as a line of a macro body applied on another line", in_macro(n),
+                target=["a816.parse.codegen.generate_macro_application", "a816.parse.codegen.generate_macro", "a816.parse.codegen._code_gen"]) for n in ("lda e", "lda.w e,x", ".dw 1, e", "jmp e + 1")]
     cs += [Case(H + "scan_positions_contract", n, shape_positioned(n), loop_specs=positioned_loop_specs(E), no_loop_specs=True, no_contracts=True, timeout_ms=60000, group="exact-positions",
                 target=[SC + "scan", SC + "next", SC + "_handle_line", SC + "get_position", SC + "emit"]) for n in POSITIONED]
     cs += [Case(H + "positions_contract", n, shape_fn(n), target=[LX + n], timeout_ms=30000) for n in ["lex_initial"] + c15.SUBLEXERS]
